@@ -1,7 +1,7 @@
 SPECIFICATION Spec
 CONSTANTS
   Configs <- QuickConfigs
-  MaxMeta = 4
+  MaxMeta = 5
   MaxDemes = 6
   MaxOffer = 2
   MaxLocal = 2
